@@ -6,7 +6,7 @@ set -u
 patch=$(realpath "$1"); props=$2; runs=${3:-300}; tests=${4:-}
 scratch=$(mktemp -d /tmp/mut.XXXXXX)
 cp -r /repo/. "$scratch/"
-cd "$scratch" && git apply "$patch" || { echo "PATCH DOES NOT APPLY"; rm -rf "$scratch"; exit 3; }
+cd "$scratch" && { git apply "$patch" 2>/dev/null || git apply --3way "$patch" >/dev/null 2>&1; } || { echo "PATCH DOES NOT APPLY"; rm -rf "$scratch"; exit 3; }
 if [ "$tests" = "--tests" ]; then
   (cd "$scratch" && /venv/bin/python -m pytest -q -p no:cacheprovider -x 2>&1 | tail -2)
 fi
